@@ -738,11 +738,13 @@ class Wild(Family):
             Doc('wd-tail-target', D(tail=' <w:known>1</w:known>\n'), 'fault:wildcard'),
             Doc('wd-tail-many', D(tail=''.join(f' <o:t n="{i}"/>\n' for i in range(15)))),
             Doc('wd-lax-unknown-xsitype', D('<unq xmlns:xsi="http://www.w3.org/2001/XMLSchema-instance" '
-                                            'xmlns:xs="http://www.w3.org/2001/XMLSchema" xsi:type="xs:int">5</unq>')),
+                                            'xmlns:xs="http://www.w3.org/2001/XMLSchema" xsi:type="xs:int">5</unq>'),
+                prefix_dep=True),
             Doc('wd-lax-unknown-nil', D('<unq xmlns:xsi="http://www.w3.org/2001/XMLSchema-instance" xsi:nil="true"/>'),
                 'fault:nil'),
             Doc('wd-lax-unknown-xsitype-nil', D('<unq xmlns:xsi="http://www.w3.org/2001/XMLSchema-instance" '
-                                                'xmlns:xs="http://www.w3.org/2001/XMLSchema" xsi:type="xs:int" xsi:nil="true"/>')),
+                                                'xmlns:xs="http://www.w3.org/2001/XMLSchema" xsi:type="xs:int" xsi:nil="true"/>'),
+                prefix_dep=True),
             Doc('wd-lax-unknown-plain', D('<unq>text</unq><unq2 a="1"/>')),
             Doc('wd-tail-nested', D('<o:x><o:y><o:z/></o:y></o:x>', tail=' <o:t1><o:d1><o:d2>t</o:d2></o:d1></o:t1>\n <o:t2/>\n')),
         ]
